@@ -3,6 +3,7 @@ package h
 import (
 	"bytes"
 	"fmt"
+	"strings"
 	"unsafe"
 
 	"github.com/mlange-42/arche/ecs"
@@ -677,4 +678,52 @@ func scribbledRes(xs []ecs.ResID) []ecs.ResID {
 		xs[len(xs)-1] = xs[0]
 	}
 	return cp
+}
+
+// statsNames checks that what World.Stats reports and prints about component types is this world's registry:
+// every node's component types are the types registered under the node's IDs in this world, and the printed lines
+// name exactly those types.
+func statsNames(w *ecs.World) string {
+	st := w.Stats()
+	ids := ecs.ComponentIDs(w)
+	if len(st.ComponentTypes) != len(ids) {
+		return fmt.Sprintf("Stats lists %d component types, %d are registered", len(st.ComponentTypes), len(ids))
+	}
+	names := []string{}
+	for i, tp := range st.ComponentTypes {
+		info, _ := ecs.ComponentInfo(w, ids[i])
+		if info.Type != tp {
+			return fmt.Sprintf("Stats lists %v as component type %d, registered is %v", tp, i, info.Type)
+		}
+		names = append(names, tp.Name())
+	}
+	text := st.String()
+	if want := "  Components: " + strings.Join(names, ", ") + "\n"; !strings.Contains(text, want) {
+		return fmt.Sprintf("the printed statistics lack the line %q", want)
+	}
+	for k := range st.Nodes {
+		nd := &st.Nodes[k]
+		nn := []string{}
+		for j, cid := range nd.ComponentIDs {
+			if int(cid) >= len(ids) {
+				return fmt.Sprintf("node %d lists component ID %d, %d types are registered", k, cid, len(ids))
+			}
+			info, _ := ecs.ComponentInfo(w, ids[cid])
+			if j >= len(nd.ComponentTypes) || nd.ComponentTypes[j] != info.Type {
+				return fmt.Sprintf("node %d lists a type for component ID %d that is not the registered %v", k, cid, info.Type)
+			}
+			nn = append(nn, info.Type.Name())
+		}
+		if !nd.IsActive {
+			continue
+		}
+		line := nd.String()
+		if want := "\n  Components: " + strings.Join(nn, ", ") + "\n"; !strings.HasSuffix(line, want) {
+			return fmt.Sprintf("node %d (component IDs %v) prints %q, its component types are named %q", k, nd.ComponentIDs, line, strings.Join(nn, ", "))
+		}
+		if !strings.Contains(text, line) {
+			return fmt.Sprintf("the printed statistics lack the lines of node %d", k)
+		}
+	}
+	return ""
 }
